@@ -132,12 +132,24 @@ theorem noSyl_newSpecialSymbol (sh : Shared D L) (sym : Sym) : NoSyl (newSpecial
   · exact noSyl_panic _
   · exact noSyl_fuel
 
+theorem noSyl_openSymbol (sh : Shared D L) : NoSyl (openSymbol env sh) := by
+  intro sh' t h
+  obtain ⟨_, rfl | rfl⟩ := openSymbol_cases env h
+  · intro s hs; injection hs with hs; subst hs; intro hc; cases hc
+  · intro s hs; cases hs
+
+theorem noSyl_openSpecialSymbol (sh : Shared D L) (sym : Sym) : NoSyl (openSpecialSymbol env sh sym) := by
+  intro sh' t h
+  rcases openSpecialSymbol_cases env h with ⟨h1, _⟩ | ⟨rfl, _⟩
+  · exact noSyl_newSpecialSymbol sh sym sh' t h1
+  · intro s hs; cases hs
+
 theorem noSyl_startSelecting (sh : Shared D L) : NoSyl (startSelecting env sh) := by
   unfold startSelecting
   repeat' split
   all_goals first
     | exact noSyl_openPhrase env _
-    | exact noSyl_newSpecialSymbol _ _
+    | exact noSyl_openSpecialSymbol env _ _
     | nosyl_leaf
 
 theorem noSyl_startSelectingOrInputSpace (sh : Shared D L) : NoSyl (startSelectingOrInputSpace env sh) := by
@@ -145,7 +157,7 @@ theorem noSyl_startSelectingOrInputSpace (sh : Shared D L) : NoSyl (startSelecti
   repeat' split
   all_goals first
     | exact noSyl_openPhrase env _
-    | exact noSyl_newSpecialSymbol _ _
+    | exact noSyl_openSpecialSymbol env _ _
     | nosyl_leaf
 
 theorem noSyl_learnTrans (r : Outcome (Shared D L × Bool)) : NoSyl (learnTrans r) := by
@@ -166,6 +178,7 @@ theorem noSyl_enteringCtrlDigit (sh : Shared D L) (c : Nat) : NoSyl (enteringCtr
   repeat' (first | split | (dsimp only; split))
   all_goals first
     | exact noSyl_learnTrans _
+    | exact noSyl_openSymbol env _
     | nosyl_leaf
 
 theorem noSyl_enteringTabInside (sh : Shared D L) : NoSyl (enteringTabInside env sh) := by
@@ -208,6 +221,7 @@ theorem sylOK_enteringDefault (hl : LayoutSane env) (sh : Shared D L) (ev : KeyE
     | exact sylOK_of_noSyl env hne (noSyl_withCom_absorb _ _)
     | exact sylOK_of_noSyl env hne (noSyl_inputChar _ _)
     | exact sylOK_of_noSyl env hne (noSyl_chineseFallback _ _)
+    | exact sylOK_of_noSyl env hne (noSyl_openSymbol env _)
     | (apply sylOK_of_noSyl env hne; nosyl_leaf)
     | skip
   all_goals
@@ -383,12 +397,23 @@ theorem sylIs_newSpecialSymbol (sh : Shared D L) (sym : Sym) : SylIs sh.syl (new
   · exact sylIs_panic _ _
   · exact sylIs_fuel _
 
+theorem sylIs_openSymbol (sh : Shared D L) : SylIs sh.syl (openSymbol env sh) := by
+  intro sh' t h
+  obtain ⟨rfl, _⟩ := openSymbol_cases env h
+  rfl
+
+theorem sylIs_openSpecialSymbol (sh : Shared D L) (sym : Sym) : SylIs sh.syl (openSpecialSymbol env sh sym) := by
+  intro sh' t h
+  rcases openSpecialSymbol_cases env h with ⟨h1, _⟩ | ⟨_, rfl⟩
+  · exact sylIs_newSpecialSymbol sh sym sh' t h1
+  · rfl
+
 theorem sylIs_startSelecting (sh : Shared D L) : SylIs sh.syl (startSelecting env sh) := by
   unfold startSelecting
   repeat' split
   all_goals first
     | exact sylIs_openPhrase env _
-    | exact sylIs_newSpecialSymbol _ _
+    | exact sylIs_openSpecialSymbol env _ _
     | sylis_leaf
 
 theorem sylIs_startSelectingOrInputSpace (sh : Shared D L) :
@@ -397,7 +422,7 @@ theorem sylIs_startSelectingOrInputSpace (sh : Shared D L) :
   repeat' split
   all_goals first
     | exact sylIs_openPhrase env _
-    | exact sylIs_newSpecialSymbol _ _
+    | exact sylIs_openSpecialSymbol env _ _
     | sylis_leaf
 
 /-- learning never touches the phonetic buffer -/
@@ -443,6 +468,7 @@ theorem sylIs_enteringCtrlDigit (sh : Shared D L) (c : Nat) : SylIs sh.syl (ente
   repeat' (first | split | (dsimp only; split))
   all_goals first
     | exact sylIs_learnTrans env _ _ _
+    | exact sylIs_openSymbol env _
     | sylis_leaf
 
 theorem sylIs_enteringTabInside (sh : Shared D L) : SylIs sh.syl (enteringTabInside env sh) := by
@@ -565,6 +591,7 @@ theorem emptyOK_enteringDefault (hl : LayoutSane env) (sh : Shared D L) (ev : Ke
     | exact emptyOK_of_sylIs env hempty (sylIs_withCom_absorb _ _)
     | exact emptyOK_of_sylIs env hempty (sylIs_inputChar _ _)
     | exact emptyOK_of_sylIs env hempty (sylIs_chineseFallback _ _)
+    | exact emptyOK_of_sylIs env hempty (sylIs_openSymbol env _)
     | (apply emptyOK_of_sylIs env hempty; sylis_leaf)
     | skip
   -- the arms that consulted the layout
